@@ -141,6 +141,13 @@ def run(report, tier, seed, driver, proofs_ok):
         if rng.random() < 0.3:
             t["Parameters"] = {"P": {"Type": "String", "Default": "Action"}}
         tmpls.append(t)
+    # statements whose conditions hold every typed leaf (bytes, dates, networks, booleans): none of them is action text
+    typed_cond = {"BinaryEquals": {"k": "QmluYXJ5VmFsdWVJbkJhc2U2NA=="}, "ForAnyValue:BinaryEquals": {"k2": ["QQ==", "QUI="]}, "DateLessThan": {"aws:CurrentTime": "2020-01-01T00:00:00Z"},
+                  "IpAddress": {"aws:SourceIp": ["10.0.0.0/8", "::/0"]}, "Bool": {"aws:SecureTransport": "true"}, "NumericLessThan": {"s3:max-keys": 10}}
+    st = {"Effect": "Allow", "Action": ["s3:Get*"], "Resource": "*", "Principal": "*", "Condition": typed_cond}
+    tmpls.insert(0, {"Resources": {"M": {"Type": "AWS::IAM::ManagedPolicy", "Properties": {"PolicyDocument": {"Statement": [st]}}},
+                                   "G": {"Type": "AWS::Logs::ResourcePolicy", "Properties": {"PolicyName": "p", "PolicyDocument": {"Statement": [copy.deepcopy(st)]}}},
+                                   "T": {"Type": "Custom::Tuple", "Properties": {"Action": "s3:Put*", "Blob": "QUJD", "Ports": [1, 2]}}}})
     for t in tmpls:
         report.case(t, common.jdump(t), sample=len(common.jdump(t)) < 400)
         report.count("kind:template")
